@@ -35,6 +35,9 @@ pub struct NetSpec {
     /// how long after an event message leaves the host reports its transmit timestamp
     /// (0: right away, before anything else happens)
     pub tx_ts_latency_ns: u64,
+    /// nodes whose master ports are turned into one-step masters by the link: the Sync leaves
+    /// with its transmit time as originTimestamp and twoStepFlag cleared, the Follow_Up is dropped
+    pub one_step: Vec<bool>,
 }
 
 /// per-frame delay = delay_min + pattern(k) * (delay_max - delay_min); every frame is a choice
@@ -235,6 +238,21 @@ pub fn simulate(spec: &NetSpec, faults: &[(u64, Fault)], choices: &mut Choices, 
                         push(&mut heap, now + d.as_nanos() as u64, EvKind::Timer { node: ni, port: pi, timer: idx, gen: gens[ni][pi][idx] });
                     }
                     Act::SendEvent { ctx, data, .. } => {
+                        let mut rewritten;
+                        let mut data: &[u8] = data;
+                        if spec.one_step.get(ni).copied().unwrap_or(false) && data.len() >= 44 && data[0] & 0x0f == 0 && data[6] & 0x02 != 0 {
+                            rewritten = data.to_vec();
+                            rewritten[6] &= !0x02;
+                            let bits = time_to_bits(nodes[ni].clock.borrow().now);
+                            let ns = (bits >> 32) as u64;
+                            let (secs, nanos) = (ns / 1_000_000_000, (ns % 1_000_000_000) as u32);
+                            rewritten[34..40].copy_from_slice(&secs.to_be_bytes()[2..8]);
+                            rewritten[40..44].copy_from_slice(&nanos.to_be_bytes());
+                            let sub = ((bits & 0xffff_ffff) >> 16) as i64; // 2^-16 ns
+                            let corr = i64::from_be_bytes(rewritten[8..16].try_into().unwrap()).saturating_add(sub);
+                            rewritten[8..16].copy_from_slice(&corr.to_be_bytes());
+                            data = &rewritten;
+                        }
                         transmit(spec, &segments, &silenced, &mut delay_choice, choices, &mut heap, &mut res, now, ni, pi, data, true, &mut frame_counter);
                         if let (Some(c), true) = (ctx.take_if(|_| spec.tx_ts_latency_ns > 0), spec.tx_ts_latency_ns > 0) {
                             // the timestamp is taken now and reported to the port later
@@ -257,6 +275,9 @@ pub fn simulate(spec: &NetSpec, faults: &[(u64, Fault)], choices: &mut Choices, 
                         }
                     }
                     Act::SendGeneral { data, .. } => {
+                        if spec.one_step.get(ni).copied().unwrap_or(false) && data.first().map(|b| b & 0x0f) == Some(8) {
+                            continue; // the Follow_Up of an emulated one-step master never leaves
+                        }
                         transmit(spec, &segments, &silenced, &mut delay_choice, choices, &mut heap, &mut res, now, ni, pi, data, false, &mut frame_counter);
                     }
                     Act::Forward(_) => {}
